@@ -290,7 +290,7 @@ def flex_layout(context, box, bottom_space, skip_stack, containing_block, page_i
         if not child.is_flex_item:
             continue
         line_size += child.hypothetical_main_size + child.main_outer_extra
-        if i > skip:
+        if line:
             line_size += main_gap
         if box.style['flex_wrap'] != 'nowrap' and line_size > main_size:
             if line:
